@@ -60,6 +60,8 @@ func run(c *hc.Ctx) {
 		P, class, _ := genInput(c)
 		judge(c, P, class, it == 0)
 	}
+	// bulk strict class: triangles on a 4x4 integer grid
+	c.WithStream("c02-small-grid", func() { runSmallGrid(c, c.N*4) })
 	// boundary classes and (thorough) larger inputs, on their own stream
 	c.WithStream("c02-sweeps", func() { runSweeps(c) })
 }
@@ -93,23 +95,28 @@ func judge(c *hc.Ctx, P *canvas.Path, class int, sample bool) {
 		return
 	}
 	open := !fp.Closed() || strings.Count(fp.String(), "M") != strings.Count(fp.String(), "z")
-	overl := hc.OverlappingEdges(cp)
+	ovSelf, ovVert, ovShared := overlapClass(cp, delta)
+	overl := ovSelf || ovVert || ovShared
 	nseg := 0
 	for _, ct := range cp {
 		nseg += len(ct)
 	}
 	c.Count(fmt.Sprintf("input:segments-bucket:%d", (nseg+9)/10*10))
 	c.Count(fmt.Sprintf("input:subpaths:%d", min(len(cp), 8)))
-	if overl {
-		c.Count("input:degenerate:overlapping-edges")
-	} else if !open && nearOverlappingEdges(cp, delta) {
-		c.Count("input:degenerate:near-overlapping-edges")
+	if ovSelf {
+		c.Count("input:degenerate:self-overlapping-edges")
+	}
+	if ovVert {
+		c.Count("input:degenerate:near-vertical-overlapping-edges")
+	}
+	if ovShared {
+		c.Count("input:shared-edges")
 	}
 	if open {
 		c.Count("input:open-subpaths")
 	}
 	// cause predicates computed from the input: they are part of the failure kind, so that a
-	// recorded defect class (open subpaths; collinearly overlapping edges) cannot hide another one
+	// recorded defect class (open subpaths; self-overlapping or vertical overlapping edges) cannot hide another one
 	suffix := causeSuffix(open, cp)
 	for rule := 0; rule < 4; rule++ {
 		c.Evals++
@@ -238,32 +245,47 @@ func judgeClosedVariant(c *hc.Ctx, fp *canvas.Path, rule int) {
 	}
 }
 
-// causeSuffix names the recorded defect class an input belongs to, decided from the input alone:
-// +open (a subpath without Close), +overlapping-edges (two edges overlap collinearly over a positive
-// length, exact), +near-overlapping-edges (two edges run within the tolerance band 4e-8 of each other
-// over a length of more than 1e-6: they become coincident segments once the sweep snaps them).
+// causeSuffix names the class an input belongs to, decided from the input alone. Two edges
+// "overlap" if they are collinear over a positive length (exact) or run within the tolerance band
+// 4e-8 of each other over more than 1e-6 (they become coincident once the sweep snaps them).
+//
+//	+open                        a subpath without Close                            (recorded defect)
+//	+self-overlapping-edges      two edges of the SAME contour overlap: spike, contour
+//	                             traversed twice, 1e-8 thin sliver                   (recorded defect)
+//	+near-vertical-overlapping-edges  two edges of different contours that are vertical after snapping
+//	                             overlap without coinciding exactly (x = -5.0000000009 next to
+//	                             x = -5)                                              (recorded defect)
+//	+shared-edges                any other overlap of edges of different contours (exactly shared
+//	                             edges of any direction, near-coincident non-vertical edges): STRICT
+//	                             since the sweep repairs e1c72e9 / 1501096 / 4e53250 — no known finding
 func causeSuffix(open bool, cp [][]hc.P2) string {
-	switch {
-	case open:
+	if open {
 		return " +open"
-	case hc.OverlappingEdges(cp):
-		return " +overlapping-edges"
-	case nearOverlappingEdges(cp, delta):
-		return " +near-overlapping-edges"
+	}
+	self, vertical, shared := overlapClass(cp, delta)
+	switch {
+	case self:
+		return " +self-overlapping-edges"
+	case vertical:
+		return " +near-vertical-overlapping-edges"
+	case shared:
+		return " +shared-edges"
 	}
 	return ""
 }
 
-// nearOverlappingEdges: is there a pair of edges e, f such that the part of f whose projection falls
-// on e is longer than 1e-6 and lies within tol of e's line at both of its ends?
-func nearOverlappingEdges(cp [][]hc.P2, tol float64) bool {
-	type edge struct{ a, b hc.P2 }
+// overlapClass: which kinds of overlapping edge pairs the contours contain.
+func overlapClass(cp [][]hc.P2, tol float64) (self, vertical, shared bool) {
+	type edge struct {
+		a, b hc.P2
+		ct   int
+	}
 	var es []edge
-	for _, ct := range cp {
+	for k, ct := range cp {
 		for i := range ct {
 			a, b := ct[i], ct[(i+1)%len(ct)]
 			if a != b {
-				es = append(es, edge{a, b})
+				es = append(es, edge{a, b, k})
 			}
 		}
 	}
@@ -271,7 +293,7 @@ func nearOverlappingEdges(cp [][]hc.P2, tol float64) bool {
 		e := es[i]
 		d := e.b.Sub(e.a)
 		l := d.Len()
-		if l < 1e-6 {
+		if l == 0 {
 			continue
 		}
 		u := d.Mul(1 / l)
@@ -287,16 +309,26 @@ func nearOverlappingEdges(cp [][]hc.P2, tol float64) bool {
 				ta, tb, sa, sb = tb, ta, sb, sa
 			}
 			lo, hi := math.Max(ta, 0), math.Min(tb, l)
-			if hi-lo <= 1e-6 || tb-ta <= 0 {
+			if hi <= lo || tb <= ta {
 				continue
 			}
+			exact := d.Cross(f.a.Sub(e.a)) == 0 && d.Cross(f.b.Sub(e.a)) == 0
 			at := func(t float64) float64 { return sa + (sb-sa)*(t-ta)/(tb-ta) }
-			if math.Abs(at(lo)) < tol && math.Abs(at(hi)) < tol {
-				return true
+			near := hi-lo > 1e-6 && math.Abs(at(lo)) < tol && math.Abs(at(hi)) < tol
+			if !exact && !near {
+				continue
+			}
+			switch {
+			case e.ct == f.ct:
+				self = true
+			case !exact && math.Abs(d.X) < tol && math.Abs(f.b.X-f.a.X) < tol:
+				vertical = true
+			default:
+				shared = true
 			}
 		}
 	}
-	return false
+	return
 }
 
 // floatOracle is the float64 search oracle (search tier only; the deciding evaluation is the exact
